@@ -350,12 +350,19 @@ class H2Protocol:
             )
         except priority.MissingStreamError:
             # Received PRIORITY frame before HEADERS frame
-            self.priority.insert_stream(
-                stream_id=event.stream_id,
-                depends_on=event.depends_on or None,
-                weight=event.weight,
-                exclusive=event.exclusive,
-            )
+            try:
+                self.priority.insert_stream(
+                    stream_id=event.stream_id,
+                    depends_on=event.depends_on or None,
+                    weight=event.weight,
+                    exclusive=event.exclusive,
+                )
+            except priority.TooManyStreamsError:
+                # The client is prioritising streams it never opens
+                self.connection.close_connection(h2.errors.ErrorCodes.ENHANCE_YOUR_CALM)
+                await self._flush()
+                await self.send(Closed())
+                return
             self.priority.block(event.stream_id)
         await self.has_data.set()
 
